@@ -12,7 +12,7 @@
    the base case of [gh_inv] (Proofs/GenAgreeC07Validate.v) for nodes with keys.  A source that
    forgets a key, gives the key precedence on the wrong side, or derives the helper with
    forMapInput for an output key makes this stop compiling. *)
-From Eino Require Import Base.Util Model.Types Model.TypesGenLib Model.TypeBuilder Model.TypeBuilderGenLib.
+From Eino Require Import Base.Util Model.Types Model.TypesGenLib Model.TypeBuilder Model.TypeBuilderGenLib Model.TypeBuilderGenLib2.
 From Eino Require Gen.NodeTypeCode.
 Module NT := Gen.NodeTypeCode.
 
@@ -28,26 +28,39 @@ Theorem gen_node_types_graph_agree : forall m has_info in_key out_key has_cr g_i
   NT.node_output_type m has_info in_key out_key true has_cr g_in g_out cr_in cr_out g_gh cr_gh = declared_ty m (has_info && out_key) g_out.
 Proof. intros; destruct has_info, in_key, out_key; split; reflexivity. Qed.
 
-(* the helper of the node follows its declared types *)
-Theorem gen_node_helper_follows_types : forall m has_info in_key out_key is_graph has_cr g_in g_out cr_in cr_out g_gh cr_gh i o,
+(* the helper of the node follows its declared types.  [gh_empty] is the value of &genericHelper{} (the
+   helper without any instantiated field that getGenericHelper starts from, since the repair 0136457, for a
+   passthrough node with a key whose own helper is still nil): nothing is assumed of it, a typed node never
+   reaches that statement *)
+Theorem gen_node_helper_follows_types : forall m has_info in_key out_key is_graph has_cr g_in g_out cr_in cr_out g_gh cr_gh gh_empty i o,
   (is_graph = true -> g_gh = Some (i, o) /\ g_in = Some i /\ g_out = Some o) ->
   (is_graph = false -> has_cr = true /\ cr_gh = Some (i, o) /\ cr_in = Some i /\ cr_out = Some o) ->
-  gh_conv_in (NT.node_generic_helper m has_info in_key out_key is_graph has_cr g_in g_out cr_in cr_out g_gh cr_gh) =
+  gh_conv_in (NT.node_generic_helper m has_info in_key out_key is_graph has_cr g_in g_out cr_in cr_out g_gh cr_gh gh_empty) =
     NT.node_input_type m has_info in_key out_key is_graph has_cr g_in g_out cr_in cr_out g_gh cr_gh /\
-  gh_conv_out (NT.node_generic_helper m has_info in_key out_key is_graph has_cr g_in g_out cr_in cr_out g_gh cr_gh) =
+  gh_conv_out (NT.node_generic_helper m has_info in_key out_key is_graph has_cr g_in g_out cr_in cr_out g_gh cr_gh gh_empty) =
     NT.node_output_type m has_info in_key out_key is_graph has_cr g_in g_out cr_in cr_out g_gh cr_gh.
 Proof.
-  intros m has_info in_key out_key is_graph has_cr g_in g_out cr_in cr_out g_gh cr_gh i o Hg Hc.
+  intros m has_info in_key out_key is_graph has_cr g_in g_out cr_in cr_out g_gh cr_gh gh_empty i o Hg Hc.
   destruct is_graph.
   - destruct (Hg eq_refl) as [A [B C]]. subst. destruct has_info, in_key, out_key; split; reflexivity.
   - destruct (Hc eq_refl) as [A [B [C D]]]. subst. destruct has_info, in_key, out_key; split; reflexivity.
 Qed.
 
+(* a node whose runnable has no helper yet (an untyped passthrough node): without a key it has none either; with a
+   key the keyed side is derived from the empty helper *)
+Theorem gen_node_helper_untyped : forall m has_info in_key out_key g_in g_out cr_in cr_out g_gh gh_empty,
+  NT.node_generic_helper m has_info in_key out_key false true g_in g_out cr_in cr_out g_gh None gh_empty =
+  if has_info && (in_key || out_key)
+  then (if out_key then gh_for_map_out m else fun h => h) ((if in_key then gh_for_map_in m else fun h => h) gh_empty)
+  else None.
+Proof. intros; destruct has_info, in_key, out_key; reflexivity. Qed.
+
 Example gen_node_types_examples :
   let m := TConc 3 in
   NT.node_input_type m true true false false true None None (Some TAny) (Some TAny) None (gh_new TAny TAny) = Some m /\
   NT.node_output_type m true true false false true None None (Some TAny) (Some TAny) None (gh_new TAny TAny) = Some TAny /\
-  NT.node_generic_helper m true true false false true None None (Some TAny) (Some TAny) None (gh_new TAny TAny) = gh_new m TAny /\
-  NT.node_generic_helper m true true true false true None None (Some TAny) (Some TAny) None (gh_new TAny TAny) = gh_new m m /\
+  NT.node_generic_helper m true true false false true None None (Some TAny) (Some TAny) None (gh_new TAny TAny) None = gh_new m TAny /\
+  NT.node_generic_helper m true true true false true None None (Some TAny) (Some TAny) None (gh_new TAny TAny) None = gh_new m m /\
+  NT.node_generic_helper m false false false false true None None None None None None (gh_new TAny TAny) = None /\
   NT.node_input_type m false false false false false None None None None None None = None.
 Proof. repeat split; reflexivity. Qed.
